@@ -97,8 +97,13 @@ type Run struct {
 	adopted   int
 	RandMode  int // 0 seeded, 1 min, 2 max
 	// StallOdds > 0: at each scheduling point a task is stalled with probability 1/StallOdds for 1..40 StallUnit of virtual time
-	StallOdds    int
-	StallUnit    time.Duration
+	StallOdds int
+	StallUnit time.Duration
+	// StallSites > 0: this run draws one of StallSites classes of scheduling sites (by hash of the site name: a
+	// source line for channel sends, selects and go statements, the operation kind for sync and atomic operations)
+	// and stalls every task that reaches a site of the class, for 1..40 StallUnit
+	StallSites   int
+	stallPick    int
 	randCtr      int64
 	bubbleMsg    string
 	endTime      time.Duration
@@ -220,6 +225,23 @@ func Yield(site string) {
 	r, t := Current()
 	if t == nil {
 		return
+	}
+	if r.StallSites > 0 {
+		if r.stallPick == 0 {
+			r.stallPick = 1 + r.Fault.Intn(r.StallSites)
+		}
+		h := uint32(2166136261)
+		for i := 0; i < len(site); i++ {
+			h = (h ^ uint32(site[i])) * 16777619
+		}
+		if int(h%uint32(r.StallSites))+1 == r.stallPick {
+			d := time.Duration(1+r.Fault.Intn(40)) * r.StallUnit
+			r.FaultFired("site-stalled")
+			r.mu.Lock()
+			t.site = site + "(stalled)"
+			r.mu.Unlock()
+			time.Sleep(d)
+		}
 	}
 	if r.StallOdds > 0 && r.Fault.Intn(r.StallOdds) == r.StallOdds-1 {
 		// fault: the task is stalled here (pre-empted, paged out, GC pause) for a drawn virtual duration
